@@ -43,7 +43,25 @@ var placeholders = strings.NewReplacer(
 )
 
 // Concrete turns a spec argument into the concrete argument string.
-func Concrete(a string) string { return placeholders.Replace(a) }
+func Concrete(a string) string {
+	a = placeholders.Replace(a)
+	// ~xHH is the raw byte HH (decoded last, so that a decoded '~' can never start a placeholder)
+	if !strings.Contains(a, "~x") {
+		return a
+	}
+	var b []byte
+	for i := 0; i < len(a); i++ {
+		if a[i] == '~' && i+3 < len(a) && a[i+1] == 'x' {
+			if v, err := strconv.ParseUint(a[i+2:i+4], 16, 8); err == nil {
+				b = append(b, byte(v))
+				i += 3
+				continue
+			}
+		}
+		b = append(b, a[i])
+	}
+	return string(b)
+}
 
 func quote(a string) string {
 	a = strings.ReplaceAll(a, `\`, `\\`)
@@ -87,7 +105,10 @@ func Render(t *Stmt) *Rendered {
 			b.WriteString(quote(Concrete(s.Arg)))
 		}
 		if len(s.Subs) == 0 {
-			if s.Arg == NoArg {
+			if s.Arg == NoArg && strings.Contains(s.Kw, ":") {
+				b.WriteString(";\n") // an extension statement without argument
+				line++
+			} else if s.Arg == NoArg {
 				b.WriteString(" {\n")
 				line++
 				b.WriteString(strings.Repeat("  ", depth) + "}\n")
